@@ -64,9 +64,9 @@ fn blank_generator() -> MoveGenerator {
 
 fn c06_check(white: bool) {
     let x = any_disjoint();
-    let a = any_aux(kani::any());
+    let a = any_aux(crate::verif_ref::vany());
     let board = Board::verif_from_raw(&x, &a);
-    let att: u64 = kani::any();
+    let att: u64 = crate::verif_ref::vany();
     gstub::reset(false, att);
     let mut mg = blank_generator();
     let r = player_is_in_check(&board, &mut mg, color(white));
@@ -118,8 +118,8 @@ fn ending(white: bool, mode: u8) {
         kani::assume(a.max_seen[1] != 3);
     }
     let mut board = Board::verif_from_raw(&x, &a);
-    let att: u64 = kani::any();
-    let empty: bool = kani::any();
+    let att: u64 = crate::verif_ref::vany();
+    let empty: bool = crate::verif_ref::vany();
     gstub::reset(empty, att);
     let mut mg = blank_generator();
     let r = game_ending(&mut board, &mut mg, color(white));
@@ -179,9 +179,9 @@ fn plain_board(x: &Raw) -> Board {
 #[kani::proof]
 #[kani::unwind(4)]
 fn c18_tab() {
-    let sq: usize = kani::any();
-    let k: usize = kani::any();
-    let e: usize = kani::any();
+    let sq: usize = crate::verif_ref::vany();
+    let k: usize = crate::verif_ref::vany();
+    let e: usize = crate::verif_ref::vany();
     kani::assume(sq < 64 && k < 6 && e < 2);
     assert!(
         BONUS_TABLES[k][e][SQUARE_TO_WHITE_BONUS_INDEX[sq]] == BONUS_TABLES[k][e][SQUARE_TO_BLACK_BONUS_INDEX[63 - sq]],
@@ -237,20 +237,20 @@ fn c18_side_b() {
 fn c18_sym(n: usize) {
     let mut w = [0u64; 6];
     let mut b = [0u64; 6];
-    let wk: u8 = kani::any();
-    let bk: u8 = kani::any();
+    let wk: u8 = crate::verif_ref::vany();
+    let bk: u8 = crate::verif_ref::vany();
     kani::assume(wk < 64 && bk < 64 && wk != bk);
     w[5] = rf::bit(wk);
     b[5] = rf::bit(bk);
     let mut occ = w[5] | b[5];
     let mut i = 0;
     while i < n {
-        let present: bool = kani::any();
-        let sq: u8 = kani::any();
+        let present: bool = crate::verif_ref::vany();
+        let sq: u8 = crate::verif_ref::vany();
         kani::assume(sq < 64);
-        let kind: u8 = kani::any();
+        let kind: u8 = crate::verif_ref::vany();
         kani::assume(kind < 5);
-        let white: bool = kani::any();
+        let white: bool = crate::verif_ref::vany();
         if present {
             kani::assume(occ & rf::bit(sq) == 0);
             occ |= rf::bit(sq);
@@ -304,14 +304,14 @@ pub(crate) mod estub {
 #[kani::stub(crate::evaluate::game_ending, crate::evaluate::kani_verif::estub::game_ending)]
 fn c18_mate() {
     let x = any_disjoint();
-    let mut a = any_aux(kani::any());
+    let mut a = any_aux(crate::verif_ref::vany());
     kani::assume(a.max_seen[1] != 3);
     a.hash = 0;
     let mut board = Board::verif_from_raw(&x, &a);
     let mut mg = blank_generator();
-    let d1: u8 = kani::any();
-    let d2: u8 = kani::any();
-    let white: bool = kani::any();
+    let d1: u8 = crate::verif_ref::vany();
+    let d2: u8 = crate::verif_ref::vany();
+    let white: bool = crate::verif_ref::vany();
     unsafe {
         estub::ENDING = 1;
     }
@@ -337,8 +337,8 @@ fn c18_mate() {
 #[kani::proof]
 #[kani::unwind(4)]
 fn c18_bound() {
-    let wm: i16 = kani::any();
-    let bm: i16 = kani::any();
+    let wm: i16 = crate::verif_ref::vany();
+    let bm: i16 = crate::verif_ref::vany();
     kani::assume(wm >= 19000 && wm <= 30600 && bm >= 19000 && bm <= 30600);
     let d = wm - bm; // the subtraction board_material_score performs; Kani checks it for overflow
     assert!(d >= -11600 && d <= 11600);
